@@ -306,7 +306,7 @@ pub fn run(c: &Value) -> Value {
         "eqhash" => {
             let reps = c.get("reps").and_then(|r| r.as_u64()).unwrap_or(4) as usize;
             let mut out = vec![];
-            for _ in 0..reps {
+            for rep_no in 0..reps {
                 // fresh instances every repetition: every HashSet gets a fresh RandomState
                 let a = match guarded(|| term_of(&c["a"])) { Ok(Ok(t)) => t, e => return json!({"build":"fail","msg":format!("{e:?}")}) };
                 // b is built (and hashed once) on ANOTHER thread: values built anywhere in the process must agree
@@ -331,7 +331,8 @@ pub fn run(c: &Value) -> Value {
                     // derived equality of sentences / tasks / Narsese goes through the term
                     "sentence_eq": en::Sentence::new_question(a.clone(), en::Stamp::Eternal) == en::Sentence::new_question(b.clone(), en::Stamp::Eternal),
                     "narsese_eq": en::Narsese::Term(a.clone()) == en::Narsese::Term(b.clone()),
-                    "pa": term_to(&a), "pb": term_to(&b),
+                    // the projected values (to confirm the harness built what was asked) only once: they dominate the size
+                    "pa": if rep_no == 0 { term_to(&a) } else { json!({"k":"same"}) }, "pb": if rep_no == 0 { term_to(&b) } else { json!({"k":"same"}) },
                 }));
             }
             json!({"reps":out})
